@@ -3,6 +3,8 @@ package main
 import (
 	"errors"
 	"fmt"
+	"github.com/sirupsen/logrus"
+	"io"
 	"strings"
 
 	"github.com/spali/go-rscp/rscp"
@@ -61,8 +63,27 @@ func buildCase(cw *caseWriter, args []interface{}, label string) {
 		got = "panic"
 	}
 	prop := "pass"
+	// the same call at trace level gives the same result
+	atTrace := func() (s string) {
+		old, oldOut := rscp.Log.GetLevel(), rscp.Log.Out
+		rscp.Log.SetOutput(io.Discard)
+		rscp.Log.SetLevel(logrus.TraceLevel)
+		defer func() {
+			rscp.Log.SetLevel(old)
+			rscp.Log.SetOutput(oldOut)
+			if r := recover(); r != nil {
+				s = "panic"
+			}
+		}()
+		return buildRun(args)
+	}()
+	if atTrace == "" {
+		atTrace = "panic"
+	}
 	if got == "panic" {
 		prop = "FAIL C18 CreateRequest panics"
+	} else if atTrace != got {
+		prop = "FAIL C18 CreateRequest depends on the log level: " + trunc(got, 80) + " at the default level, " + trunc(atTrace, 80) + " at trace level"
 	} else if want := refBuildTop(args); want != got {
 		prop = "FAIL C18 the documented grammar gives " + trunc(want, 100) + " but CreateRequest " + trunc(got, 100)
 	}
@@ -120,7 +141,7 @@ func (g *gen) argAlphabet() []interface{} {
 			al = append(al, ts[g.pick(len(ts))])
 		}
 	}
-	al = append(al, rscp.BAT_REQ_DATA, rscp.RSCP_REQ_AUTHENTICATION, rscp.Tag(0x7f000001), rscp.Tag(0xffffffff))
+	al = append(al, rscp.BAT_REQ_DATA, rscp.RSCP_REQ_AUTHENTICATION, rscp.Tag(0x7f000001), rscp.Tag(0xffffffff), rscp.Tag(0), rscp.Tag(1), g.known[0], g.known[len(g.known)-1])
 	// data-type constants
 	al = append(al, rscp.None, rscp.Container, rscp.CString, rscp.DataType(0x42))
 	// Go values of every kind, nil included
@@ -141,6 +162,14 @@ func init() {
 	streams["builder"] = func(g *gen, cw *caseWriter, n int, thorough bool) {
 		al := g.argAlphabet()
 		buildCase(cw, nil, "empty")
+		// the smallest and largest tag numbers, known and unknown, in every position
+		for _, t := range []rscp.Tag{0, 1, 2, g.known[0], g.known[len(g.known)-1], 0xffffffff, 0xfffffffe, 0x80000000, 0x00800000, 0x007fffff} {
+			buildCase(cw, []interface{}{t}, "extreme-tag alone")
+			buildCase(cw, []interface{}{rscp.BAT_REQ_DATA, t}, "extreme-tag nested")
+			buildCase(cw, []interface{}{rscp.BAT_REQ_DATA, t, g.byType[rscp.None][0]}, "extreme-tag nested first")
+			buildCase(cw, []interface{}{rscp.BAT_REQ_DATA, g.byType[rscp.None][0], t}, "extreme-tag nested last")
+			buildsCase(cw, [][]interface{}{{t}, {rscp.BAT_REQ_DATA, t}}, "extreme-tag multi")
+		}
 		// exhaustive short lists over a reduced alphabet (one representative per class) …
 		small := []interface{}{g.byType[rscp.None][0], g.byType[rscp.CString][0], g.byType[rscp.UInt16][0], rscp.BAT_REQ_DATA,
 			rscp.Tag(0x7f000001), rscp.CString, "v", uint16(7), nil, 5}
